@@ -32,9 +32,13 @@ def spec_text(rows, nm, rnd=None, layout=0):
     return "\n".join(lines) + "\n"
 
 
-def matrix_text(names, M):
+def matrix_text(names, M, rnd=None):
+    """header = column names; one line per row, labelled with its name – in any order"""
     lines = ["|".join(names)]
-    for n, row in zip(names, M):
+    rows = list(zip(names, M))
+    if rnd is not None and rnd.random() < 0.35:
+        rnd.shuffle(rows)
+    for n, row in rows:
         lines.append(f"{n}|" + " ".join(str(x) for x in row))
     return "\n".join(lines) + "\n"
 
@@ -107,7 +111,7 @@ def gen_instance(rnd, family):
         feats.add("transport")
         n_agv = rnd.choice([1, 1, 2, nj, nj + 1]) if family != "ordered" else rnd.choice([2, 2, 3])
         names, M = travel_matrix(rnd, nm, zeros=rnd.choice([0.0, 0.15, 0.4]), sym=rnd.random() < 0.3)
-        lg = {"type": "agv", "amount": n_agv, "specification": matrix_text(names, M)}
+        lg = {"type": "agv", "amount": n_agv, "specification": matrix_text(names, M, rnd)}
         if want("stoch", 0.7, 0.05):
             lg["time_behavior"] = time_behavior(rnd)
             feats.add("stoch_travel")
@@ -151,13 +155,17 @@ def gen_instance(rnd, family):
         if rnd.random() < 0.35:
             # custom standalone buffers (first = input, second = output by position)
             feats.add("custom_buffers")
-            ib = {"name": "b-0", "type": rnd.choice(BUF_TYPES), "role": "input", "description": "in"}
-            ob = {"name": "b-1", "type": "flex", "role": "output", "description": "out"}
+            bn = ["b-0", "b-1", "b-2"]
+            if rnd.random() < 0.5:
+                # custom names anywhere in the id range the compiler also allocates from
+                bn = [f"b-{k}" for k in rnd.sample(range(0, 3 * nm + 6), 3)]
+            ib = {"name": bn[0], "type": rnd.choice(BUF_TYPES), "role": "input", "description": "in"}
+            ob = {"name": bn[1], "type": "flex", "role": "output", "description": "out"}
             if rnd.random() < 0.3:
                 ib["capacity"] = nj + rnd.choice([0, 1])
             bl = [ib, ob]
             if rnd.random() < 0.3:
-                bl.append({"name": "b-2", "type": rnd.choice(BUF_TYPES), "role": "compensation"})
+                bl.append({"name": bn[2], "type": rnd.choice(BUF_TYPES), "role": "compensation"})
             ic["buffer"] = bl
             meta["ordered_standalone"] = ib["type"] != "flex"
 
@@ -171,7 +179,7 @@ def gen_instance(rnd, family):
         for i in range(nm):
             diag = rnd.random() < 0.4
             M = [[(rnd.randint(0, 4) if diag else 0) if a == b else rnd.randint(0, 5) for b in range(ntools)] for a in range(ntools)]
-            e = {"machine": f"m-{i}", "specification": matrix_text(tools, M)}
+            e = {"machine": f"m-{i}", "specification": matrix_text(tools, M, rnd)}
             if want("stoch", 0.6, 0.1):
                 e["time_behavior"] = time_behavior(rnd, kinds=("uni", "gaussian", "poisson"))
                 feats.add("stoch_setup")
@@ -260,6 +268,123 @@ def gen_scenario(seed, family=None):
         # consume samples of stochastic durations in this run but not in the twin
         sc["probes"]["c20"] = False
     return sc
+
+
+MALFORMED = ["job-typo", "job-ragged", "job-machine-out-of-range", "job-negative-duration", "job-float-duration",
+             "job-duplicate-label", "job-swapped-labels", "travel-missing-row", "travel-duplicate-row", "travel-short-row",
+             "travel-long-row", "travel-negative", "travel-non-numeric", "travel-unknown-location", "travel-header-missing-machine",
+             "tool-unknown", "tool-missing-job", "setup-non-square", "logistics-no-amount", "logistics-unknown-type",
+             "logistics-negative-amount", "buffer-unknown-type", "buffer-negative-capacity", "buffer-unknown-role",
+             "buffer-no-output-role", "outage-unknown-type", "outage-missing-duration", "init-agv-unknown-location",
+             "init-job-unknown-location", "no-specification", "no-instance-config"]
+
+
+def gen_malformed(seed, kind=None):
+    """a valid generated document with exactly one defect of a named class (C16: must be rejected
+    with one of the library's own error types)"""
+    import copy
+    rnd = random.Random(seed)
+    kind = kind or rnd.choice(MALFORMED)
+    need = {"travel": "transport", "logistics": "transport", "tool": "setup", "setup": "setup", "buffer": "buffers",
+            "outage": "outage", "init-agv": "transport"}
+    fam = next((v for k, v in need.items() if kind.startswith(k)), rnd.choice(["classic", "transport", "mixed"]))
+    for attempt in range(200):
+        doc, meta = gen_instance(random.Random(seed * 977 + attempt), fam)
+        ic = doc["instance_config"]
+        if kind.startswith(("travel", "logistics", "init-agv")) and "logistics" not in ic:
+            continue
+        if kind.startswith(("tool", "setup")) and "setup_times" not in ic:
+            continue
+        if kind.startswith("buffer") and not isinstance(ic.get("buffer"), list):
+            continue
+        if kind.startswith("outage") and "outages" not in ic:
+            continue
+        break
+    else:
+        return None
+    doc = copy.deepcopy(doc)
+    ic = doc["instance_config"]
+    inst = ic["instance"]
+    lines = inst["specification"].rstrip("\n").split("\n")
+    nm = meta["nm"]
+
+    def setspec():
+        inst["specification"] = "\n".join(lines) + "\n"
+
+    def tlines():
+        return ic["logistics"]["specification"].rstrip("\n").split("\n")
+
+    def settl(tl):
+        ic["logistics"]["specification"] = "\n".join(tl) + "\n"
+    if kind == "job-typo":
+        k = rnd.randrange(1, len(lines)); lines[k] = lines[k].replace(",", ";", 1); setspec()
+    elif kind == "job-ragged":
+        k = rnd.randrange(1, len(lines)); lines[k] = lines[k][: lines[k].rindex("(")].rstrip(); setspec()
+    elif kind == "job-machine-out-of-range":
+        k = rnd.randrange(1, len(lines)); lines[k] = lines[k].replace("(", f"({nm + 3}", 1).replace(f"({nm + 3}", f"({nm + 3}", 1)
+        head, rest = lines[k].split("|", 1)
+        first = rest[rest.index("(") + 1: rest.index(",")]
+        lines[k] = head + "|" + rest.replace(f"({first},", f"({nm + 3},", 1); setspec()
+    elif kind == "job-negative-duration":
+        k = rnd.randrange(1, len(lines)); i = lines[k].index(","); lines[k] = lines[k][: i + 1] + "-" + lines[k][i + 1:].lstrip(); setspec()
+    elif kind == "job-float-duration":
+        k = rnd.randrange(1, len(lines)); i = lines[k].index(")"); lines[k] = lines[k][:i] + ".5" + lines[k][i:]; setspec()
+    elif kind == "job-duplicate-label":
+        lines[2] = "j0|" + lines[2].split("|", 1)[1]; setspec()
+    elif kind == "job-swapped-labels":
+        a, b = lines[1].split("|", 1), lines[2].split("|", 1)
+        lines[1], lines[2] = b[0] + "|" + a[1], a[0] + "|" + b[1]; setspec()
+    elif kind == "travel-missing-row":
+        tl = tlines(); del tl[rnd.randrange(1, len(tl))]; settl(tl)
+    elif kind == "travel-duplicate-row":
+        tl = tlines(); k = rnd.randrange(1, len(tl) - 1); tl[k + 1] = tl[k].split("|")[0] + "|" + tl[k + 1].split("|")[1]; settl(tl)
+    elif kind == "travel-short-row":
+        tl = tlines(); k = rnd.randrange(1, len(tl)); tl[k] = tl[k].rsplit(" ", 1)[0]; settl(tl)
+    elif kind == "travel-long-row":
+        tl = tlines(); k = rnd.randrange(1, len(tl)); tl[k] = tl[k] + " 7"; settl(tl)
+    elif kind == "travel-negative":
+        tl = tlines(); k = rnd.randrange(1, len(tl)); n, v = tl[k].split("|"); vs = v.split(); vs[rnd.randrange(len(vs))] = "-3"; tl[k] = n + "|" + " ".join(vs); settl(tl)
+    elif kind == "travel-non-numeric":
+        tl = tlines(); k = rnd.randrange(1, len(tl)); n, v = tl[k].split("|"); vs = v.split(); vs[rnd.randrange(len(vs))] = "x"; tl[k] = n + "|" + " ".join(vs); settl(tl)
+    elif kind == "travel-unknown-location":
+        tl = tlines(); tl = [l.replace("out-buf", "warehouse") for l in tl]; settl(tl)
+    elif kind == "travel-header-missing-machine":
+        tl = tlines(); tl[0] = tl[0].replace("m-0|", "", 1); settl(tl)
+    elif kind == "tool-unknown":
+        inst["tool_usage"][0]["operation_tools"][0] = "tl-99"
+    elif kind == "tool-missing-job":
+        del inst["tool_usage"][-1]
+    elif kind == "setup-non-square":
+        e = ic["setup_times"][0]; sl = e["specification"].rstrip("\n").split("\n"); del sl[-1]; e["specification"] = "\n".join(sl) + "\n"
+    elif kind == "logistics-no-amount":
+        del ic["logistics"]["amount"]
+    elif kind == "logistics-unknown-type":
+        ic["logistics"]["type"] = "drone"
+    elif kind == "logistics-negative-amount":
+        ic["logistics"]["amount"] = -1
+    elif kind == "buffer-unknown-type":
+        ic["buffer"][0]["type"] = "stack"
+    elif kind == "buffer-negative-capacity":
+        ic["buffer"][0]["capacity"] = -2
+    elif kind == "buffer-unknown-role":
+        ic["buffer"][0]["role"] = "scrap"
+    elif kind == "buffer-no-output-role":
+        ic["buffer"][1]["role"] = "compensation"
+    elif kind == "outage-unknown-type":
+        ic["outages"][0]["type"] = "holiday"
+    elif kind == "outage-missing-duration":
+        del ic["outages"][0]["duration"]
+    elif kind == "init-agv-unknown-location":
+        doc.setdefault("init_state", {})["t-0"] = {"location": "m-99"}
+    elif kind == "init-job-unknown-location":
+        doc.setdefault("init_state", {})["j-0"] = {"location": "b-999"}
+    elif kind == "no-specification":
+        del inst["specification"]
+    elif kind == "no-instance-config":
+        doc = {"title": "InstanceConfig"}
+    return {"id": f"malformed-{kind}-{seed}", "family": "malformed", "malformed": kind, "seed": 0,
+            "dsl": yaml.safe_dump(doc, sort_keys=False), "cfg": gen_cfg(rnd, meta), "policy": {"kind": "accept", "seed": 0},
+            "probes": {}, "meta": {"family": "malformed"}}
 
 
 class Policy:
